@@ -15,6 +15,13 @@ Pipeline of the check:
  3. `vh chunk-sweep` runs the dense Go-side sweep (remainders, MTUs, key lengths, 1-3 messages,
     yields, write splits, buffered and unbuffered pipes, perturbed schedules, several GOMAXPROCS)
     and records traces; every trace (also those of step 2) is validated against Chunk_Trace.tla.
+    Splits of a value into writes include EMPTY writes (Write(0) before, between and after the non-empty
+    parts: Chunk.tla SplitOf kind = base + 7 z; a stuttering step of the written stream; Pipeline.tla models the
+    io.Pipe rendezvous of an empty write, taken by a Read returning (0, nil)); a second, seeded "writes" grid of
+    Chunk_Gen enumerates all 28 split kinds, splits of the second value and calls after Close (WLate: every call
+    after Close fails and changes nothing, `late` events).  On the reassembly side the harness also feeds chunks
+    with an empty value (Chunk.tla FeedEmpty, `feed{n=0}` events, call by call) and reads the reassembled values
+    with small buffers.  A stall is a `hang` event (10 s watchdog) that no action of the specification allows.
  4. Cancellation (Pipeline.tla, Cancel = TRUE): where the model reaches a panic state the scenario
     is executed against the real code (`vh chunk-cancel`).
 Verdicts come only from the real code: a rejected trace line / a replay mismatch / a reproduced panic.
@@ -45,7 +52,7 @@ def tla_set(xs):
     return "{" + ", ".join(str(x) for x in xs) + "}"
 
 
-def gen_cfg(mtus, tails, spans, yieldsets, maxmsgs=2, keylens=KEYLENS, rems=range(0, 41), splits=(0,)):
+def gen_cfg(mtus, tails, spans, yieldsets, maxmsgs=2, keylens=KEYLENS, rems=range(0, 41), splits=(0,), tailsplits=(0,), lates=(0,)):
     ys = "{" + ", ".join(tla_set(sorted(y)) for y in yieldsets) + "}"
     return """SPECIFICATION Spec
 CONSTANTS
@@ -57,9 +64,13 @@ CONSTANTS
   Spans = %s
   YieldSets = %s
   SplitKinds = %s
+  TailSplitKinds = %s
+  LateKinds = %s
+  EmptyFeeds = FALSE
   Interleave = FALSE
 INVARIANTS %s Emit
-""" % (tla_set(mtus), tla_set(keylens), tla_set(rems), maxmsgs, tla_set(tails), tla_set(spans), ys, tla_set(splits), INVS)
+""" % (tla_set(mtus), tla_set(keylens), tla_set(rems), maxmsgs, tla_set(tails), tla_set(spans), ys, tla_set(splits),
+       tla_set(tailsplits), tla_set(lates), INVS)
 
 
 def account(ctx, module, cfg, r):
@@ -133,11 +144,53 @@ def messages_of(run):
     for x in run:
         if x["ev"] == "script":
             for o in x["ops"]:
+                if o["op"] == "close":
+                    break       # what follows are calls after Close
                 if o["op"] == "next":
                     msgs.append([o["key"], 0])
                 elif o["op"] == "write":
                     msgs[-1][1] += o["n"]
     return msgs
+
+
+def script_of(run):
+    for x in run:
+        if x["ev"] == "script":
+            return x["ops"]
+    return []
+
+
+def empty_writes(run):
+    n = 0
+    for o in script_of(run):
+        if o["op"] == "close":
+            break
+        if o["op"] == "write" and o["n"] == 0:
+            n += 1
+    return n
+
+
+def late_ops(run):
+    ops = script_of(run)
+    for i, o in enumerate(ops):
+        if o["op"] == "close":
+            return [x["op"] for x in ops[i + 1:]]
+    return []
+
+
+def empty_write_offsets(run, j):
+    """Offsets inside message j (0-based) at which the script has an empty write."""
+    offs, cur, acc = set(), -1, 0
+    for o in script_of(run):
+        if o["op"] == "close":
+            break
+        if o["op"] == "next":
+            cur, acc = cur + 1, 0
+        elif o["op"] == "write" and cur == j:
+            if o["n"] == 0:
+                offs.add(acc)
+            acc += o["n"]
+    return offs
 
 
 def position(run, msgs, upto):
@@ -160,7 +213,20 @@ def classify(run, idx):
         return "C15|writer-error|" + re.sub(r"^\d+:", "", e["msg"])[:60], "the writer saw an error: %s" % e["msg"]
     if e["ev"] in ("hang", "crash"):
         d = (e.get("where") or e.get("msg") or "")[:80]
+        if e["ev"] == "hang" and empty_writes(run) and run[0].get("buffers") == 0:
+            return ("C15|empty-write|hang|unbuffered|stage=%s" % d,
+                    "the pipeline stalled (watchdog, stage %s) on a script with an empty Write on the unbuffered pipe; script: %s"
+                    % (d, json.dumps(script_of(run))[:300]))
         return "C15|%s|%s" % (e["ev"], d), "%s: %s" % (e["ev"], d)
+    if e["ev"] == "late":
+        return ("C15|call-after-Close-succeeded|%s" % e.get("op"),
+                "the writer's %s after Close did not fail (or was not the call the script made): %s" % (e.get("op"), json.dumps(e)))
+    if e["ev"] in ("feed", "feeds", "feedclose", "unchunk") and e.get("err"):
+        return ("C15|reassembly-error|%s|%s" % (e["ev"], e["err"][:50]), "the reassembly side failed: %s" % json.dumps(e))
+    if e["ev"] == "unchunk":
+        return ("C15|reassembly|value-differs|feed_empty=%s" % (run[0].get("feed_empty") or "none"),
+                "NextServiceInfo + body read (buffer of %s bytes; 0 = io.ReadAll) returned a value Chunk.tla does not allow here: %s"
+                % (run[0].get("body_read") or 0, json.dumps(e)))
     if e["ev"] != "read":
         return "C15|unexplained|ev=%s" % e["ev"], "event not allowed by Chunk.tla: %s" % json.dumps(e)
     j, off = position(run, msgs, idx)
@@ -168,6 +234,11 @@ def classify(run, idx):
     klen = msgs[j][0]["len"] if j < len(msgs) else 0
     L = rawlen(klen) if klen else 0
     prev = [x for x in run[:idx] if x["ev"] == "read"]
+    if e["out"] == "chunk" and j < len(msgs) and (off + e["n"]) in empty_write_offsets(run, j) and off + e["n"] < msgs[j][1]:
+        return ("C15|empty-write|value-cut-at-empty-write|buffers=%s" % run[0].get("buffers"),
+                "ReadChunk(size=%d) returned a chunk of %d byte(s) that ends where the writer made an empty Write (offset %d of %d in message %d), "
+                "although the message was not finished and the budget had room; mtu=%d buffers=%s"
+                % (e["size"], e["n"], off + e["n"], msgs[j][1], j + 1, mtu, run[0].get("buffers")))
     if e["out"] == "err" and fresh and 7 <= e["size"] < 7 + L:
         return ("C15|%s|read-error" % WINDOW,
                 "ReadChunk(size=%d) at the start of a message whose key has %d bytes (raw %d): observed error %r and the exchange fails; "
@@ -251,10 +322,24 @@ def run(ctx):
     else:
         gen_mtus = sorted(set(rnd.sample(low, 2) + rnd.sample(mid, 1) + [1300] + rnd.sample(high, 1) + rnd.sample(bnd, 1)))
         gcfg = gen_cfg(gen_mtus, tails=[3], spans=[0, 1], yieldsets=[[], [1]])
+    # the "writes" grid: every split of the first value into writes, empty writes included (kind = base + 7 z,
+    # Chunk.tla SplitOf: z = where the empty writes go), the second value split as well, calls after Close
+    pool = low + mid + mid + high + high + bnd + bnd
+    if quick:
+        w_mtus = [rnd.choice(pool)]
+        wcfg = gen_cfg(w_mtus, tails=[3], spans=[rnd.choice([0, 1])], yieldsets=[[]], keylens=[rnd.choice(KEYLENS)],
+                       rems=sorted(rnd.sample(range(0, 41), 5)), splits=range(28), tailsplits=[0, 21], lates=[0, 3])
+    else:
+        w_mtus = sorted(set([rnd.choice(low), rnd.choice(mid + high + bnd)]))
+        wcfg = gen_cfg(w_mtus, tails=[3], spans=[0, 1], yieldsets=[[]], keylens=sorted(rnd.sample(KEYLENS, 2)),
+                       rems=sorted(rnd.sample(range(0, 41), 6)), splits=range(28), tailsplits=[0, 21], lates=[0, 3])
     gdir = ctx.sub("gen")
     gpath = os.path.join(gdir, "Chunk_Gen_seeded.cfg")
+    wpath = os.path.join(gdir, "Chunk_Gen_writes.cfg")
     with open(gpath, "w") as f:
         f.write(gcfg)
+    with open(wpath, "w") as f:
+        f.write(wcfg)
     jobs = [
         ("Chunk", "Chunk_MC.cfg" if quick else "Chunk_MC_big.cfg", {}),
         ("Chunk", "Chunk_MC_il.cfg" if quick else "Chunk_MC_il_big.cfg", {}),
@@ -262,9 +347,12 @@ def run(ctx):
         ("Pipeline", "Pipeline_MC_cancel.cfg" if quick else "Pipeline_MC_cancel_big.cfg", {"deadlock": True}),
         ("Pipeline", "Pipeline_MC_cancel_nopanic.cfg", {"deadlock": True}),
         ("Chunk_Gen", gpath, {}),
+        ("Chunk_Gen", wpath, {}),
     ]
     if not quick:
         jobs.append(("Chunk", "Chunk_MC_big3.cfg", {}))
+        # interleavings of writer, reader, feeder (with empty chunks) and consumer over splits with empty writes
+        jobs.append(("Chunk", "Chunk_MC_il_zero.cfg", {}))
         # design check of the proposed repair of nextPipe (poll w.closing under readerMu before the select)
         jobs.append(("Pipeline", "Pipeline_MC_cancel_fixed.cfg", {"deadlock": True}))
     with ThreadPoolExecutor(max_workers=len(jobs)) as ex:
@@ -283,19 +371,23 @@ def run(ctx):
                              "repair_ClosingCheck_model_checked(NoPanic,Termination,deadlock)": not quick}
 
     behs = ctx.behaviours(results[5])
-    if not behs:
+    wbehs = ctx.behaviours(results[6])
+    if not behs or not wbehs:
         raise Inconclusive("Chunk_Gen printed no behaviours")
+    behs = behs + wbehs
     groups = collections.OrderedDict()
     for b in behs:
         k = json.dumps([b["mtu"], b["script"]], sort_keys=True)
         g = groups.setdefault(k, {"mtu": b["mtu"], "script": convert_script(b["script"]), "allowed": [], "asm_expect": b["asm"]})
         if b["sent"] not in g["allowed"]:
             g["allowed"].append(b["sent"])
-    bufchoices, inmodes = [0, 1, 2, 1000], ["seq", "conc", "conc1"]
+    bufchoices, inmodes = [0, 0, 1, 2, 1000], ["seq", "conc", "conc1"]
+    feedempties, bodyreads = ["", "", "before", "after", "both"], [0, 0, 1, 2, 5, 64]
     scheds = ["", "gosched", "sleep", "mixed", "writerfirst", "readerfirst"]
     behaviours = []
     for i, g in enumerate(groups.values()):
         g.update({"id": i + 1, "buffers": rnd.choice(bufchoices), "in_mode": rnd.choice(inmodes),
+                  "feed_empty": rnd.choice(feedempties), "body_read": rnd.choice(bodyreads),
                   "sched": {"mode": rnd.choice(scheds), "seed": rnd.getrandbits(40)}})
         behaviours.append(g)
     if os.environ.get("VERIF_C15_FLIP"):
@@ -305,8 +397,11 @@ def run(ctx):
                 g["allowed"][0][0][0]["n"] -= 1
                 ctx.log("VERIF_C15_FLIP: expectation of behaviour %d corrupted" % g["id"])
                 break
-    ctx.log("TLC generated %d behaviours for %d parameter tuples (MTUs %s)" % (len(behs), len(behaviours), gen_mtus))
+    ctx.log("TLC generated %d behaviours for %d parameter tuples (MTUs %s; writes grid: %d behaviours, MTUs %s)"
+            % (len(behs), len(behaviours), gen_mtus, len(wbehs), w_mtus))
     ctx.notes["gen_mtus"] = gen_mtus
+    ctx.notes["gen_writes_grid"] = {"mtus": w_mtus, "behaviours": len(wbehs), "split_kinds": "0..27 (7 splits x 4 placements of empty writes)",
+                                    "tail_split_kinds": [0, 21], "late_kinds": [0, 3]}
     ctx.notes["behaviours_with_two_allowed_outcomes"] = sum(1 for g in behaviours if len(g["allowed"]) > 1)
 
     # ---- 2b. replay into the real code -----------------------------------------------------------
@@ -322,7 +417,7 @@ def run(ctx):
     nhang = sum(1 for r in rruns for e in r if e["ev"] == "hang")
     if (len(rruns) != len(behaviours) and nhang < 6) or len(verdicts) != len(behaviours):
         raise Inconclusive("replay executed %d of %d behaviours" % (len(rruns), len(behaviours)))
-    pby = {b["id"]: {k: b[k] for k in ("mtu", "buffers", "in_mode", "script", "sched")} for b in behaviours}
+    pby = {b["id"]: {k: b[k] for k in ("mtu", "buffers", "in_mode", "feed_empty", "body_read", "script", "sched")} for b in behaviours}
     rej = validate_runs(ctx, rruns, "rp", per_slice=8000 if quick else 40000, workers=8 if quick else 12)
     report(ctx, rej, pby, "replay of TLC-generated behaviours", stats)
     rejected_ids = set(r[0].get("run") for r, _ in rej)
@@ -339,6 +434,7 @@ def run(ctx):
     for rid in rejected_ids:
         if rid is not None and verdicts[rid - 1]["match"] and verdicts[rid - 1]["asm_match"]:
             raise Inconclusive("behaviour %d: Chunk_Trace.tla rejects the run but the replay comparison accepts it (harness and specification disagree)" % rid)
+    ctx.log("replayed %d behaviours on the real code and validated their traces (%d rejected)" % (len(behaviours), len(rej)))
     ctx.notes["replayed_behaviours"] = len(behaviours)
     ctx.notes["replay_mismatches"] = len(mism)
     ctx.sample({"tlc_behaviour": {"mtu": behaviours[0]["mtu"], "script": behaviours[0]["script"], "allowed": behaviours[0]["allowed"]}})
@@ -368,6 +464,7 @@ def run(ctx):
                 break
     rej2 = validate_runs(ctx, sruns, "sw", per_slice=8000 if quick else 40000, workers=8 if quick else 12)
     report(ctx, rej2, sparams, "Go-side sweep", stats)
+    ctx.log("sweep: %d runs validated (%d rejected)" % (len(sruns), len(rej2)))
     ctx.sample({"recorded_run": sruns[0][:8]})
 
     # ---- 4. cancellation -------------------------------------------------------------------------
@@ -414,6 +511,20 @@ def run(ctx):
     ctx.notes["window_table"] = table
     ctx.notes["sched_modes"] = sorted(set(p["sched"]["mode"] or "none" for p in sparams.values()))
     ctx.notes["buffers"] = sorted(set(p["buffers"] for p in sparams.values()))
+    ew = collections.Counter()
+    for r in allruns:
+        if empty_writes(r):
+            ew["unbuffered" if r[0].get("buffers") == 0 else "buffered"] += 1
+    ctx.notes["runs_with_empty_writes"] = dict(ew)
+    ctx.notes["runs_with_calls_after_Close"] = sum(1 for r in allruns if late_ops(r))
+    ctx.notes["calls_after_Close_validated"] = sum(1 for r in allruns for e in r if e["ev"] == "late")
+    ctx.notes["runs_with_empty_chunks_fed"] = dict(collections.Counter(r[0].get("feed_empty") for r in allruns if r[0].get("feed_empty")))
+    ctx.notes["empty_chunks_fed"] = sum(1 for r in allruns for e in r if e["ev"] == "feed" and e["n"] == 0)
+    ctx.notes["body_read_sizes"] = sorted(set(r[0].get("body_read") or 0 for r in allruns))
+    ctx.notes["longest_key"] = max((o["key"]["len"] for r in sruns for o in script_of(r) if o["op"] == "next"), default=0)
+    if not nhang and not nhang2 and (ew["unbuffered"] < 20 or ew["buffered"] < 20 or not ctx.notes["calls_after_Close_validated"]
+                                     or not ctx.notes["empty_chunks_fed"]):
+        raise Inconclusive("vacuous run: too few runs with empty writes / calls after Close / empty chunks: %s" % dict(ew))
     hangs = [e for r in allruns for e in r if e["ev"] in ("hang", "crash")]
     ctx.notes["hang_or_crash_events"] = len(hangs)
     if not reads or len(census) == 0:
